@@ -29,8 +29,10 @@ def tname(v):
 
 
 class Scenario:
-    def __init__(self, symbolic=(), wrapper=False, simp_func=True, n=2, scalar_at=None, foreign_at=None, foreign_kind="basis"):
+    def __init__(self, symbolic=(), wrapper=False, simp_func=True, n=2, scalar_at=None, foreign_at=None, foreign_kind="basis",
+                 cached=False):
         self.foreign_kind = foreign_kind
+        self.cached = cached          # is the key pattern already in the operator's cache? (`key in self`)
         self.symbolic, self.wrapper, self.simp_func, self.n = set(symbolic), wrapper, simp_func, n
         self.scalar_at, self.foreign_at = scalar_at, foreign_at
 
@@ -92,7 +94,8 @@ def run_entry(repo, qual: str, sc: Scenario):
         log["filter"] = (tname(keys_out), tname(values_out))
         return (tok("KEYS_FILTERED"), tok("VALUES_FILTERED"))
 
-    me = Obj(kind, {"algebra": alg, "name": "op", "codegen": tok("CODEGEN")}, {"filter": filt}, getitem=getitem)
+    me = Obj(kind, {"algebra": alg, "name": "op", "codegen": tok("CODEGEN")},
+             {"filter": filt, "__contains__": lambda key: bool(getattr(sc, "cached", False))}, getitem=getitem)
     operands = []
     for i in range(sc.n):
         if sc.scalar_at == i:
